@@ -409,7 +409,9 @@ class Assembler:
 
                 if "statement" in line and not consumed:
                     stmt = line["statement"]
-                    size = self._get_statement_size(stmt, source_line_num)
+                    # Key the pass-1 -> pass-2 hand-off by statement index: several
+                    # statements may share one source line.
+                    size = self._get_statement_size(stmt, i)
                     self.section_pointers[current_section] += size
             except Exception as e:
                 raise AssemblerError(
@@ -445,7 +447,7 @@ class Assembler:
             if "statement" in line and not consumed:
                 stmt = line["statement"]
                 try:
-                    encoded_bytes = self._encode_statement(stmt, source_line_num)
+                    encoded_bytes = self._encode_statement(stmt, i)
                     if encoded_bytes:
                         if current_section == "bss":
                             # .bss section only reserves space, no data in file
